@@ -552,5 +552,117 @@ theorem quotientGens_congr (o : Order) {id : Ideal α} (hid : AllMM V id.gens) :
 
 end Groebner
 end B
+
+/-! ## `step` on the ideal operations -/
+section StepI
+variable {α : Type} {env env' : Env α} {V : Nat → α → Prop}
+
+/-- all four register files valid (this is `StoreOKAll`, see `storeOK4_iff`) -/
+def StoreOK4 (V : Nat → α → Prop) (s : St α) : Prop :=
+  StoreOKB V s ∧ ∀ k I, St.getL s.ids k = some I → B.AllMM (V 0) I.gens
+
+theorem StoreOK4.setI {s : St α} (hs : StoreOK4 V s) (d : Nat) (I : BPoly.Ideal α)
+    (hI : B.AllMM (V 0) I.gens) : StoreOK4 V { s with ids := St.setL s.ids d I } := by
+  refine ⟨hs.1, fun k I' hk => ?_⟩
+  rw [St.getL_setL] at hk
+  split at hk
+  · cases hk; exact hI
+  · exact hs.2 k I' hk
+
+theorem iGet_ok {s : St α} (hs : StoreOK4 V s) (k : Nat) : B.AllMM (V 0) (iGet s k).gens := by
+  unfold iGet
+  cases hg : St.getL s.ids k with
+  | none => exact fun _ h => by cases h
+  | some I => exact hs.2 k I hg
+
+variable (h : EnvAgreeB env env' V)
+include h
+
+theorem showGens_eq (o : Order) (gs : List (BPoly α)) : showGens env' o gs = showGens env o gs := by
+  unfold showGens; rw [encB_eq' h]
+
+omit h in
+/-- the ideal operations -/
+def iOp : Op → Bool
+  | .iNew .. | .iCopy .. | .iGroebner .. | .iPred .. | .iXform .. | .iGens .. | .iObs _ => true
+  | _ => false
+
+theorem step_iOp_agree (desc : FieldDesc) {s : St α} (hs : StoreOK4 V s) (op : Op)
+    (hop : iOp op = true) :
+    step env' desc s op = step env desc s op ∧ StoreOK4 V (step env desc s op).1 := by
+  have A := h.u.base.agree 0
+  have C := h.u.base.closed 0
+  cases op <;> try (simp only [iOp, Bool.false_eq_true] at hop; done)
+  case iCopy dst a =>
+    exact ⟨rfl, hs.setI dst _ (iGet_ok hs a)⟩
+  case iObs a =>
+    simp only [step, stepE, stepU, stepB, showGens_eq h, bord_eq h]
+    exact ⟨trivial, hs⟩
+  case iNew dst ring gs =>
+    simp only [step, stepE, stepU, stepB, showGens_eq h, bord_eq h]
+    split_ifs with c1 c2
+    · exact ⟨trivial, hs⟩
+    · exact ⟨trivial, hs⟩
+    · refine ⟨trivial, hs.setI dst _ ?_⟩
+      intro f hf
+      have := List.mem_of_mem_filter hf
+      obtain ⟨r, hr, rfl⟩ := List.mem_map.1 this
+      obtain ⟨k, _, rfl⟩ := List.mem_map.1 hr
+      exact bGet_ok hs.1 k
+  case iGens dsts a =>
+    refine ⟨rfl, ?_, ?_⟩
+    · refine StoreOKB.foldB 0 (dsts.zip (iGet s a).gens) hs.1 ?_
+      intro x hx
+      exact iGet_ok hs a _ (List.of_mem_zip hx).2
+    · exact hs.2
+  case iGroebner dst a =>
+    simp only [step, stepE, stepU, stepB, showGens_eq h, bord_eq h, F0]
+    obtain ⟨e, hv⟩ := B.groebnerBasis_par A C (bord env 0) (iGet_ok hs a)
+    rw [e]
+    cases hg : (iGet s a).groebnerBasis (env.fld 0) (bord env 0) with
+    | none => exact ⟨rfl, hs⟩
+    | some g => exact ⟨rfl, hs.setI dst _ (hv g hg)⟩
+  case iPred which a =>
+    simp only [step, stepE, stepU, stepB, bord_eq h, F0]
+    have hid := iGet_ok hs a
+    obtain ⟨e1, hv1⟩ := B.isGroebnerQ_par A C (bord env 0) hid
+    obtain ⟨e2, hv2⟩ := B.isMinimalQ_par A C (bord env 0) hid
+    obtain ⟨e3, hv3⟩ := B.isReducedQ_par A C (bord env 0) hid
+    rw [e1, e2, e3]
+    have hv : B.IdRes (V 0) (if (which == "groebner") = true then (iGet s a).isGroebnerQ (env.fld 0) (bord env 0)
+        else if (which == "minimal") = true then (iGet s a).isMinimalQ (env.fld 0) (bord env 0)
+        else (iGet s a).isReducedQ (env.fld 0) (bord env 0)) := by
+      split
+      · exact hv1
+      · split
+        · exact hv2
+        · exact hv3
+    generalize (if (which == "groebner") = true then (iGet s a).isGroebnerQ (env.fld 0) (bord env 0)
+        else if (which == "minimal") = true then (iGet s a).isMinimalQ (env.fld 0) (bord env 0)
+        else (iGet s a).isReducedQ (env.fld 0) (bord env 0)) = res at hv ⊢
+    cases res with
+    | none => exact ⟨rfl, hs⟩
+    | some r => exact ⟨rfl, hs.setI a _ (hv r rfl)⟩
+  case iXform which a =>
+    simp only [step, stepE, stepU, stepB, bord_eq h, F0]
+    have hid := iGet_ok hs a
+    rw [B.quotientGens_congr A C (bord env 0) hid]
+    obtain ⟨e1, hv1⟩ := B.minimizeBasis_par A C (bord env 0) hid
+    obtain ⟨e2, hv2⟩ := B.reduceBasis_par A C (bord env 0) hid
+    rw [e1, e2]
+    split_ifs with c1 c2
+    · cases BPoly.quotientGens (env.fld 0) (bord env 0) (iGet s a) <;> exact ⟨rfl, hs⟩
+    · cases hm : (iGet s a).minimizeBasis (env.fld 0) (bord env 0) with
+      | none => exact ⟨rfl, hs⟩
+      | some r =>
+        obtain ⟨id', ex⟩ := r
+        cases ex <;> exact ⟨rfl, hs.setI a _ (hv1 _ hm)⟩
+    · cases hm : (iGet s a).reduceBasis (env.fld 0) (bord env 0) with
+      | none => exact ⟨rfl, hs⟩
+      | some r =>
+        obtain ⟨id', ex⟩ := r
+        cases ex <;> exact ⟨rfl, hs.setI a _ (hv2 _ hm)⟩
+
+end StepI
 end Tables
 end Algobra
